@@ -161,8 +161,16 @@ func scenario(p Params) e1.Scenario {
 				return "reducer-reports-cancellation-without-cancel", desc("context error although nobody cancelled the caller"), outcome, key
 			}
 			if got != want {
-				// a decision must be the Kleene value; with a cancelling thread any non-wrong answer is fine
-				sig := "reducer-wrong-result/" + p.Op + "/want=" + want + "-got=" + got
+				// a decision must be the Kleene value; under a cancelling thread a failure is acceptable too
+				// (outcomes of finished operands may be dropped once the context is cancelled), a decision
+				// that differs from the Kleene value is not
+				if p.Cancel && got == "E" {
+					return "", "", outcome, key
+				}
+				sig := "reducer-wrong-result/" + p.Op + "(" + p.Operands + ")/want=" + want + "-got=" + got
+				if p.Cancel {
+					sig += "/caller-cancelled"
+				}
 				return sig, desc("result differs from the strong-Kleene value"), outcome, key
 			}
 			return "", "", outcome, key
@@ -184,6 +192,10 @@ func Scenarios(thorough bool) []e1.Scenario {
 			}
 		}
 		limits := []int{1, 10}
+		if strings.Contains(ops, "B") {
+			// with fewer workers than operands the blocking operand may legitimately be waited for
+			limits = []int{10}
+		}
 		for _, l := range limits {
 			ps = append(ps, Params{Op: op, Operands: ops, Limit: l})
 		}
